@@ -70,5 +70,6 @@ let run (st : stream) (b : Buffer.t) : unit =
     Buffer.add_string b "load OK\n";
     Printf.bprintf b "wf %b\n" (net_wf_b nw);
     Printf.bprintf b "maxvehicles %s\n" (zs (max_vehicles nw));
+    Printf.bprintf b "ovf %b\n" (overflow_ok_b nw);
     dump_network nw b
   | _ -> Buffer.add_string b "load PANIC\n"
